@@ -26,7 +26,14 @@ ASSUMPTIONS = [
 FLOORS = {"calls-checked": 1000, "rejections-checked": 100, "sanitised-string-writes": 100}
 
 
+
 def shards(tier, seed):
+    from vf import engine
+
+    return engine.with_interpreter_options(_plain_shards(tier, seed))
+
+
+def _plain_shards(tier, seed):
     if tier == "quick":
         return [{"n": 1250, "part": p} for p in range(16)] + [{"grid": True}] + [{"sweep": (lo, lo + 275)} for lo in range(0, 2200, 275)]
     return [{"n": 15625, "part": p} for p in range(64)] + [{"grid": True}] + [{"sweep": (lo, lo + 1100)} for lo in range(0, 13200, 1100)] + [{"sweep": (c - 3, c + 4)} for c in (16384, 32768, 65536)]
